@@ -192,6 +192,23 @@ CHECKS['C05'] = dict(
     technique='property-based testing (Hypothesis) with differential oracle '
               'over exhaustive per-run cut points')
 
+CHECKS['C11'] = dict(
+    category='exploration', design_ref='DESIGN.md §12 (C11)',
+    text='Metamorphic pairs: a base run and 2-4 variants differing in exactly '
+         'one invisible dimension (same again in-process and in a fresh '
+         'interpreter, scalar/vectorised, likelihood pool none / int 2-4 / '
+         'external multiprocessing.Pool / a permuting pool whose evaluation '
+         'order is drawn by Hypothesis, verbose, checkpoint file, drawn '
+         'accessor interleavings between batches); SHA-256 digests of '
+         'posterior arrays, log_z, n_eff, n_like and shell lengths must be '
+         'equal at every batch boundary.',
+    note='OS scheduling of real pools is sampled, the permuting pool models '
+         'arbitrary evaluation order; only the likelihood pool is varied '
+         '(pool=(k, None)) because an integer pool argument also changes the '
+         'sampler pool; 20-50 batches per run.',
+    technique='property-based testing (Hypothesis), metamorphic / '
+              'differential pairs with harness-owned schedules')
+
 NOT_YET = {}
 
 
